@@ -46,7 +46,9 @@ def focus_elements(tier):
             v1, v2 = valid.get(t, ('5', '2020-02-29'))
             pv = (None, '', v1, v2, 'x', '99999' + ('-W01' if t == 'week' else '-01' if t == 'month' else '-01-01'))
             if t == 'week':
-                pv += ('0400-W10', '0999-W52', '2019-W53')
+                pv += ('0400-W10', '0999-W52', '2019-W53', '4294967296-W01', '2147483648-W52')
+            if t in ('date', 'month', 'datetime-local'):
+                pv += (('4294967296-01-01', '4294967296-01', '4294967296-01-01T00:00')[('date', 'month', 'datetime-local').index(t)],)
             tv = (v1, v2, 'x')
         else:
             pv, tv = vals[:12] + vals[12::3], vals[1:7]
@@ -83,7 +85,7 @@ def focus_elements(tier):
     return out
 
 
-ODD = (None, 0, 3.5, b'x', b'\xff', ('a', ('b',)), (), ('a', None, 1), True)
+ODD = (None, 0, 3.5, b'x', b'\xff', ('a', ('b',)), (), ('a', None, 1), True, 'alpha' + ' ' * 48 + 'beta', 'a' + '\n\t ' * 20 + 'b', ' ' * 64)
 ODD_SELECTORS = ['[t]', '[t=x]', '[t~=x]', '[t|=x]', '[t^=x]', '[t$=x]', '[t*=x]', '[t!=x]', '[t=x i]', '.c', '#i', '[class]', '[id=i]', '[class~=c]',
                  ':not([t=a])', '.c.d', '[t] > *', '* + [t="0"]']
 
